@@ -378,11 +378,41 @@ func exec(line string) zv.Out {
 	tags := []string{"type=" + typ, "name=" + nameOut, "rev=" + b(res.InRevocationSet), "exp=" + b(res.Expired),
 		fmt.Sprintf("cur=%d", min(len(cur), 4)), fmt.Sprintf("old=%d", min(len(old), 4)), fmt.Sprintf("nev=%d", min(len(nev), 4)),
 		fmt.Sprintf("vae=%d", min(len(vae), 4)), fmt.Sprintf("par=%d", min(len(par), 4))}
+	// entries sharing the component the lookup starts with, and where among them the certificate's own entry is
+	share := func(label string, ps []pair, a int, own func(pair) bool) {
+		n, pos := 0, -1
+		for _, p := range ps {
+			if p.a == a {
+				if own(p) && pos < 0 {
+					pos = n
+				}
+				n++
+			}
+		}
+		if n >= 2 {
+			where := "absent"
+			switch {
+			case pos == 0:
+				where = "first"
+			case pos == n-1:
+				where = "last"
+			case pos > 0:
+				where = "middle"
+			}
+			tags = append(tags, fmt.Sprintf("%s-share=%d", label, min(n, 5)), label+"-own="+where)
+		}
+	}
 	if rev.one != nil {
 		tags = append(tags, "onecrl")
+		share("onecrl-subject", rev.oneBlocked, spec.Subj, func(p pair) bool { return p.b == spec.Key })
+		share("onecrl-issuer", rev.oneSerial, spec.Iss, func(p pair) bool { return p.b == spec.Serial })
 	}
 	if rev.set != nil {
 		tags = append(tags, "crlset")
+		share("crlset-issuer", rev.setSerial, spec.Sign, func(p pair) bool { return p.b == spec.Serial })
+		if len(rev.setBlocked) >= 2 {
+			tags = append(tags, fmt.Sprintf("crlset-blocked=%d", min(len(rev.setBlocked), 5)))
+		}
 	}
 	return zv.Out{Go: out, Viol: viol, Tags: tags}
 }
@@ -394,6 +424,7 @@ func gen(g *zv.Gen) {
 	r := g.Rng
 	hs := c10.Handcrafted()
 	ng := g.N(700, 3000)
+	sharedSeq := 0
 	for i := 0; i < ng; i++ {
 		var cs []c10.CertSpec
 		if i%2 == 0 {
@@ -512,13 +543,114 @@ func gen(g *zv.Gen) {
 						return strconv.Itoa(r.Intn(6))
 					})
 				}
+				if r.Chance(12) { // a sharing set (see sharedSets) at a random time / with a name as well
+					one, set = sharedSets(r, s, sharedSeq)
+					sharedSeq++
+				}
 				g.Emitf("c12 %s %s %d %d %s %s %s %s", tok, vm, start, t, name, one, set, c10.FormatOps(ops))
 			}
+			// Sets with SEVERAL entries sharing one lookup key (same subject / different keys, same issuer /
+			// different serials, same parent key / different serials, several blocked SPKIs), the certificate's
+			// own entry at every position or absent: one line per kind and (graph, certificate).
+			for kind := 0; kind < sharedKinds; kind++ {
+				one, set := sharedSets(r, s, sharedSeq*sharedKinds+kind)
+				g.Emitf("c12 %s %s %d %d - %s %s %s", tok, vm, start, 5, one, set, c10.FormatOps(ops))
+			}
+			sharedSeq++
 		}
 	}
 }
 
+const sharedKinds = 6
+
+// sharedSets builds revocation sets in which several entries share the component a lookup starts with, so that a
+// scan that stops at the first partial match (or keeps only one entry per issuer) is observable.
+//
+//	kind 0  OneCRL.Blocked: n entries with the certificate's subject and n different keys
+//	kind 1  OneCRL issuer list: n serial numbers under the certificate's issuer
+//	kind 2  CRLSet issuer list: n serial numbers under the signing (= parent) key
+//	kind 3  CRLSet.BlockedSPKIs: n different keys
+//	kind 4  OneCRL: kinds 0 and 1 together, entries of other subjects / issuers interleaved
+//	kind 5  CRLSet: kinds 2 and 3 together, entries of other keys interleaved
+//
+// seq picks kind, n in 2..5 and the position of the certificate's own entry (0..n-1, or n = absent) in rotation,
+// so that over a run every position of every length occurs for every kind.
+func sharedSets(r *zv.Rng, s c10.CertSpec, seq int) (one, set string) {
+	kind := seq % sharedKinds
+	seq /= sharedKinds
+	n := 2 + seq%4
+	pos := (seq / 4) % (n + 1)
+	// n distinct values around own, own at position pos (absent when pos == n)
+	distinct := func(own, lo, hi int) []int {
+		var out []int
+		used := map[int]bool{own: true}
+		for len(out) < n {
+			if len(out) == pos {
+				out = append(out, own)
+				continue
+			}
+			v := lo + r.Intn(hi-lo)
+			if used[v] {
+				continue
+			}
+			used[v] = true
+			out = append(out, v)
+		}
+		return out
+	}
+	pairs := func(a int, bs []int, noiseA, noiseB int) string {
+		var ss []string
+		for _, b := range bs {
+			if noiseA > 0 && r.Chance(35) {
+				ss = append(ss, fmt.Sprintf("%d.%d", (a+1+r.Intn(noiseA))%(noiseA+1), 1+r.Intn(noiseB)))
+			}
+			ss = append(ss, fmt.Sprintf("%d.%d", a, b))
+		}
+		return strings.Join(ss, "+")
+	}
+	singles := func(as []int) string {
+		var ss []string
+		for _, a := range as {
+			ss = append(ss, strconv.Itoa(a))
+		}
+		return strings.Join(ss, "+")
+	}
+	one, set = "-", "-"
+	switch kind {
+	case 0:
+		one = "o/-/" + pairs(s.Subj, distinct(s.Key, 0, 12), 0, 0)
+	case 1:
+		one = "o/" + pairs(s.Iss, distinct(s.Serial, 1, 9), 0, 0) + "/-"
+	case 2:
+		set = "g/" + pairs(s.Sign, distinct(s.Serial, 1, 9), 0, 0) + "/-"
+	case 3:
+		set = "g/-/" + singles(distinct(s.Sign, 0, 12))
+	case 4:
+		// the own entry is in exactly one of the two lists or in neither
+		ser, blk := distinct(s.Serial, 1, 9), distinct(s.Key, 0, 12)
+		if pos < n {
+			if r.Chance(50) {
+				ser[pos] = 9 // not the certificate's serial number (those are 1..4 / 1..8)
+			} else {
+				blk[pos] = 12 // not a key of the universe
+			}
+		}
+		one = "o/" + pairs(s.Iss, ser, 5, 4) + "/" + pairs(s.Subj, blk, 4, 5)
+	case 5:
+		ser, blk := distinct(s.Serial, 1, 9), distinct(s.Sign, 0, 12)
+		if pos < n {
+			if r.Chance(50) {
+				ser[pos] = 9
+			} else {
+				blk[pos] = 12
+			}
+		}
+		set = "g/" + pairs(s.Sign, ser, 6, 4) + "/" + singles(blk)
+	}
+	return one, set
+}
+
 func init() {
 	zv.Register(&zv.Prop{ID: "C12", Topic: "c12", Gen: gen, Exec: exec,
-		Rule: "real graphs (C10 structures and random universes) whose certificates have validity periods drawn from a small grid so that boundaries coincide; 2-3 start certificates per graph; verification times at -1/0/+1 s around every NotBefore/NotAfter of the universe; names matching / not matching the SAN or CN (exact, wildcard, wrong label count); OneCRL and CRLSet absent, empty, listing the certificate by issuer+serial / subject+key / parent SPKI+serial / blocked parent SPKI, or listing others; a case is one (graph, certificate, time, name, sets); T3 = the property's sentence evaluated on VerificationResult with an independent walk and classification"})
+		Rule: "real graphs (C10 structures and random universes) whose certificates have validity periods drawn from a small grid so that boundaries coincide; 2-3 start certificates per graph; verification times at -1/0/+1 s around every NotBefore/NotAfter of the universe; names matching / not matching the SAN or CN (exact, wildcard, wrong label count); OneCRL and CRLSet absent, empty, listing the certificate by issuer+serial / subject+key / parent SPKI+serial / blocked parent SPKI, or listing others; per (graph, certificate) six sets with 2-5 entries SHARING the component a lookup starts with (OneCRL blocked entries with the certificate's subject and different keys, OneCRL serials under its issuer, CRLSet serials under its signing key, several blocked SPKIs, and both lists together with foreign entries interleaved), the certificate's own entry at every position or absent; a case is one (graph, certificate, time, name, sets); T3 = the property's sentence evaluated on VerificationResult with an independent walk and classification"})
 }
